@@ -186,7 +186,7 @@ func HarnessCrash() {
 	if m == nil {
 		return
 	}
-	probe("C01", e.L, m, vrt.U64("probe"))
+	probe("C01-C02-C04.recovered", e.L, m, vrt.U64("probe"))
 	if cs.stableSet {
 		got, err := e.L.Get([]byte("k"))
 		vrt.Assert("C08.stable-durable", err == nil && dataEq(got, cs.stable))
@@ -221,7 +221,7 @@ func HarnessCrash() {
 		m.Ents = append(m.Ents, en)
 	}
 	vrt.Quiesce()
-	checkAgainst("C03.after-append", e.L, m)
+	checkAgainst("C01-C03.after-append", e.L, m)
 	if vrt.Param("usability", 1) == 1 {
 		err = e.L.Set([]byte("k2"), []byte{7})
 		vrt.Assert("C03.stable-set-ok", err == nil)
@@ -236,9 +236,9 @@ func HarnessCrash() {
 		err = e.open()
 		vrt.Assert("C03.clean-reopen-ok", err == nil)
 		if err == nil {
-			checkAgainst("C03.after-reopen", e.L, m)
+			checkAgainst("C01-C02-C03-C04.after-reopen", e.L, m)
 			// sealed segments are now read through their on-disk index
-			probe("C01.after-reopen", e.L, m, vrt.U64("probe2"))
+			probe("C01-C02-C03-C04.after-reopen", e.L, m, vrt.U64("probe2"))
 		}
 	}
 	vrt.Reach("crash-verified")
